@@ -19,6 +19,7 @@ func rulesC07(c *Ctx) {
 		"R7.3 the path prefix each Concrete*Proto hands to the schema→proto conversion equals the schema path of the table whose element type is the function's parameter (writer's and reader's tables agree); the key of the result is the entry's own key",
 		"R7.4 scope: a named instance → that holder only; all → KnownNetworkInstances(); an unknown instance is an error; every message produced is forwarded to the stream",
 		"R7.5 rebuilding from responses covers all five kinds, each appended to its own table of its own network instance",
+		"R7.7 (shared with C01/C02) a replace deletes and merges the key inside the install helper's single exclusive section, and a held operation is retried under its own network instance — otherwise Get misses an installed key for a moment, or reports it under another instance",
 		"R7.6 the walk is a snapshot of the instance: every read of the installed tables on the Get path holds the instance's lock (shared with C11) — a Get overlapping a replace otherwise misses an entry that was installed throughout")
 	c.NotDec = append(c.NotDec, "field-for-field payload fidelity through proto → paths → ygot → gNMI → proto: the conversion is reflective third-party code (protomap, ytypes) with no source-level shape in this repository; the known loss of pop-top-label happens inside it", "Get(ALL) = disjoint union on concrete RIBs (follows from R7.1 structurally)")
 	ruleGetRIBBlocks(c)
@@ -30,6 +31,10 @@ func rulesC07(c *Ctx) {
 	ruleFromGetResponses(c)
 	// R7.6 the walk is a snapshot: the tables are read under the instance's lock
 	ruleLockDiscipline(c, lockSel{classes: []string{"RIBHolder.mu"}, pkgs: []string{"server", "rib"}, pairing: true})
+	// R7.7 what Get reads is what was acknowledged: a replace removes and merges inside one exclusive section
+	// (no window in which an installed key is absent), and a held operation is installed under the instance it was sent to
+	ribFamily(c, famSel{mergeTotal: true})
+	ruleRetryAfterInstall(c)
 }
 
 // concreteOf: the Concrete*Proto function whose parameter is *aft.Afts_<Struct>
@@ -366,40 +371,92 @@ func ruleDoGetScope(c *Ctx) {
 
 // Server.Get forwards every produced message
 func ruleGetForwards(c *Ctx) {
-	const rule = "GET-FORWARDS"
-	fi := c.need("server", "Server", "Get")
+	ruleStreamForwards(c, "GET-FORWARDS", "Get", "GetResponse")
+}
+
+// ruleStreamForwards: in the RPC handler (or a goroutine it starts), every
+// message received from the producer channel is handed to stream.Send on every
+// path through the receiving case — none is filtered, none is sent twice.
+func ruleStreamForwards(c *Ctx, rule, handler, elem string) {
+	fi := c.need("server", "Server", handler)
 	if fi == nil {
 		return
 	}
-	info := fi.Pkg.TypesInfo
-	ok := false
-	ast.Inspect(fi.Decl.Body, func(n ast.Node) bool {
-		cc, isCC := n.(*ast.CommClause)
-		if !isCC || cc.Comm == nil {
-			return true
+	type scope struct {
+		body *ast.BlockStmt
+		fi   *FuncInfo
+	}
+	scopes := []scope{{fi.Decl.Body, fi}}
+	for _, gb := range goBodies(fi) {
+		if gb.Lit == nil {
+			scopes = append(scopes, scope{gb.Body, gb.FI})
 		}
-		as, isAs := cc.Comm.(*ast.AssignStmt)
-		if !isAs || len(as.Lhs) != 1 {
-			return true
-		}
-		ue, isU := ast.Unparen(as.Rhs[0]).(*ast.UnaryExpr)
-		if !isU {
-			return true
-		}
-		if tv, ok2 := info.Types[ue.X]; ok2 {
-			if ch, isCh := tv.Type.Underlying().(*types.Chan); isCh && isNamed(ch.Elem(), spbPath, "GetResponse") {
-				msg := objOfIdent(info, as.Lhs[0])
-				for _, call := range callsIn(cc) {
-					if se, isSe := ast.Unparen(call.Fun).(*ast.SelectorExpr); isSe && se.Sel.Name == "Send" && len(call.Args) == 1 && objOfIdent(info, call.Args[0]) == msg {
-						ok = true
+	}
+	n := 0
+	bad := ""
+	seen := map[*ast.CommClause]bool{}
+	for _, sc := range scopes {
+		info := sc.fi.Pkg.TypesInfo
+		ast.Inspect(sc.body, func(nd ast.Node) bool {
+			cc, isCC := nd.(*ast.CommClause)
+			if !isCC || cc.Comm == nil || seen[cc] {
+				return true
+			}
+			as, isAs := cc.Comm.(*ast.AssignStmt)
+			if !isAs || len(as.Lhs) != 1 || len(as.Rhs) != 1 {
+				return true
+			}
+			ue, isU := ast.Unparen(as.Rhs[0]).(*ast.UnaryExpr)
+			if !isU {
+				return true
+			}
+			tv, ok2 := info.Types[ue.X]
+			if !ok2 {
+				return true
+			}
+			ch, isCh := tv.Type.Underlying().(*types.Chan)
+			if !isCh || !isNamed(ch.Elem(), spbPath, elem) {
+				return true
+			}
+			seen[cc] = true
+			n++
+			msg := objOfIdent(info, as.Lhs[0])
+			ev := func(x ast.Node) []Event {
+				var out []Event
+				for _, call := range callsIn(x) {
+					if se, isSe := ast.Unparen(call.Fun).(*ast.SelectorExpr); isSe && se.Sel.Name == "Send" && len(call.Args) == 1 {
+						if objOfIdent(info, call.Args[0]) == msg && msg != nil {
+							out = append(out, Event{Kind: "send", Node: call})
+						} else {
+							out = append(out, Event{Kind: "send-other", Node: call})
+						}
 					}
 				}
+				return out
 			}
-		}
-		return true
-	})
-	c.Sites++
-	c.check(ok, rule, fi.Name, "every message received from the producer is sent on the stream", c.P.pos(fi.Decl.Pos()), "case r := <-msgCh: stream.Send(r)", "Get does not forward the produced GetResponse messages to the stream unchanged")
+			paths, pe := enumPaths(info, cc.Body, ev)
+			c.Sites += len(paths)
+			if pe.overflow || len(paths) == 0 {
+				bad = "cannot enumerate the paths of the receiving case"
+				return true
+			}
+			for _, p := range paths {
+				switch {
+				case p.End == "panic":
+				case p.has("send-other"):
+					bad = "something other than the received message is sent on the stream: " + p.describe(c.P)
+				case p.count("send") != 1:
+					bad = fmt.Sprintf("a received %s is sent %d times on a path (a message is dropped or duplicated): %s", elem, p.count("send"), p.describe(c.P))
+				}
+			}
+			return true
+		})
+	}
+	if n == 0 {
+		c.vanished(rule, fi.Name, "receiving case", "no select case receiving a "+elem+" from the producer")
+		return
+	}
+	c.check(bad == "", rule, fi.Name, "every message received from the producer is sent on the stream", c.P.pos(fi.Decl.Pos()), fmt.Sprintf("%d receiving case(s), every path sends the received message exactly once", n), bad)
 }
 
 // R7.5
